@@ -221,9 +221,7 @@ func catalogue(tier string) []cfg {
 	// conjugate-invariant ring (even and odd log N): share conversion and refresh
 	for _, p := range []ck{{mp.ChainCK40CI, 40}, {mp.ChainCK25CI, 25}} {
 		for _, n := range []int{1, 2, 3} {
-			// a single slot (LogSlots = 0) is left out: in the conjugate-invariant ring the ckks encoder itself does not
-			// round-trip it (Encode -> Decrypt -> Decode returns garbage without any protocol involved)
-			for _, ls := range []int{1, 2, p.ch.LogN} {
+			for _, ls := range []int{0, 1, p.ch.LogN} { // single slot (repaired in /repo b0ab35d), two slots, all slots
 				for _, off := range []int{0, 1} {
 					sg := sigmas[(n+ls+off)%3]
 					r = append(r, full(cfg{proto: "ckks-e2s", chain: p.ch, ntt: true, n: n, lin: off, lsh: -1, lout: -1, sigma: sg, logSlots: ls, logScale: p.logScale, batched: true}))
